@@ -61,52 +61,89 @@ func main() {
 		sort.Strings(vis)
 		return vis
 	}
-	for ci, c := range in.Cases {
-		func() {
-			defer func() {
-				if r := recover(); r != nil {
-					emit(map[string]any{"op": "panic", "case": ci, "msg": fmt.Sprint(r)})
-				}
-			}()
-			reg, err := template.NewRegistry(nil, c.Dst, c.InPkg)
-			if err != nil {
-				panic(err)
-			}
-			scope := reg.MethodScope()
-			emit(map[string]any{"op": "reset", "case": ci, "inpkg": c.InPkg, "dst": c.Dst, "visible": probe(scope)})
-			for _, o := range c.Ops {
-				switch o.Op {
-				case "add":
-					scope.AddName(o.Name)
-					emit(map[string]any{"op": "add", "case": ci, "name": o.Name})
-				case "exists":
-					emit(map[string]any{"op": "exists", "case": ci, "name": o.Name, "res": scope.NameExists(o.Name)})
-				case "suggest":
-					emit(map[string]any{"op": "suggest", "case": ci, "prefix": o.Prefix, "res": scope.SuggestName(o.Prefix)})
-				case "alloc":
-					emit(map[string]any{"op": "alloc", "case": ci, "prefix": o.Prefix, "res": scope.AllocateName(o.Prefix)})
-				case "import":
-					p := reg.AddImport(o.Name, o.Path)
-					emit(map[string]any{"op": "import", "case": ci, "name": o.Name, "path": o.Path, "nil": p == nil, "res": p.Qualifier()})
-				case "imports":
-					paths := []string{}
-					quals := []string{}
-					for _, p := range reg.Imports() {
-						paths = append(paths, p.Path())
-						quals = append(quals, p.Qualifier())
-					}
-					emit(map[string]any{"op": "imports", "case": ci, "paths": paths, "quals": quals})
-				case "qual":
-					q, err := reg.Imports().PkgQualifier(o.Path)
-					emit(map[string]any{"op": "qual", "case": ci, "path": o.Path, "found": err == nil, "res": q})
-				case "newscope":
-					scope = reg.MethodScope()
-					emit(map[string]any{"op": "newscope", "case": ci, "visible": probe(scope)})
-				default:
-					panic("unknown op " + o.Op)
-				}
+	// replay runs one history on fresh objects and returns the logged events (a recovered panic becomes
+	// a "panic" event).  With erase=true the suggest operations are skipped.
+	replay := func(ci int, c tcase, erase bool) (evs []map[string]any) {
+		emit := func(m map[string]any) { evs = append(evs, m) }
+		defer func() {
+			if r := recover(); r != nil {
+				emit(map[string]any{"op": "panic", "case": ci, "msg": fmt.Sprint(r)})
 			}
 		}()
+		reg, err := template.NewRegistry(nil, c.Dst, c.InPkg)
+		if err != nil {
+			panic(err)
+		}
+		scope := reg.MethodScope()
+		emit(map[string]any{"op": "reset", "case": ci, "inpkg": c.InPkg, "dst": c.Dst, "visible": probe(scope)})
+		for _, o := range c.Ops {
+			switch o.Op {
+			case "add":
+				scope.AddName(o.Name)
+				emit(map[string]any{"op": "add", "case": ci, "name": o.Name})
+			case "exists":
+				emit(map[string]any{"op": "exists", "case": ci, "name": o.Name, "res": scope.NameExists(o.Name)})
+			case "suggest":
+				if erase {
+					continue
+				}
+				emit(map[string]any{"op": "suggest", "case": ci, "prefix": o.Prefix, "res": scope.SuggestName(o.Prefix)})
+			case "alloc":
+				emit(map[string]any{"op": "alloc", "case": ci, "prefix": o.Prefix, "res": scope.AllocateName(o.Prefix)})
+			case "import":
+				p := reg.AddImport(o.Name, o.Path)
+				emit(map[string]any{"op": "import", "case": ci, "name": o.Name, "path": o.Path, "nil": p == nil, "res": p.Qualifier()})
+			case "imports":
+				paths := []string{}
+				quals := []string{}
+				for _, p := range reg.Imports() {
+					paths = append(paths, p.Path())
+					quals = append(quals, p.Qualifier())
+				}
+				emit(map[string]any{"op": "imports", "case": ci, "paths": paths, "quals": quals})
+			case "qual":
+				q, err := reg.Imports().PkgQualifier(o.Path)
+				emit(map[string]any{"op": "qual", "case": ci, "path": o.Path, "found": err == nil, "res": q})
+			case "newscope":
+				scope = reg.MethodScope()
+				emit(map[string]any{"op": "newscope", "case": ci, "visible": probe(scope)})
+			default:
+				panic("unknown op " + o.Op)
+			}
+		}
+		return evs
+	}
+	for ci, c := range in.Cases {
+		evs := replay(ci, c, false)
+		hasSuggest := false
+		for _, o := range c.Ops {
+			if o.Op == "suggest" {
+				hasSuggest = true
+			}
+		}
+		if hasSuggest {
+			// second replay with the suggest operations erased: the replies of all other operations are
+			// logged next to the original ones (<field>_erased); the trace specification compares them.
+			er := replay(ci, c, true)
+			j := 0
+			for _, e := range evs {
+				if e["op"] == "suggest" || e["op"] == "panic" {
+					continue
+				}
+				if j >= len(er) || er[j]["op"] != e["op"] {
+					break
+				}
+				for _, k := range []string{"res", "quals", "visible", "found", "nil"} {
+					if v, ok := er[j][k]; ok {
+						e[k+"_erased"] = v
+					}
+				}
+				j++
+			}
+		}
+		for _, e := range evs {
+			emit(e)
+		}
 	}
 	if err := w.Flush(); err != nil {
 		panic(err)
